@@ -97,6 +97,45 @@ def alpha_normalise(t: Any) -> Any:
     return mapterm(t, f)
 
 
+def bound_vars(t: Any) -> set:
+    """Variables bound INSIDE t: generator patterns of comprehensions / accumulations / big unions, lambda parameters, forall-not binders."""
+    out: set = set()
+
+    def pat_vars(p):
+        if isinstance(p, tuple) and p and p[0] == "var":
+            out.add(p)
+        elif isinstance(p, tuple) and p and p[0] == "tuplelit":
+            for x in p[1]:
+                pat_vars(x)
+
+    for s in subterms(t):
+        if s[0] == "comp" and len(s) > 3:
+            for g in s[3]:
+                pat_vars(g[0])
+        elif s[0] == "accum" and len(s) > 4:
+            for g in s[4]:
+                pat_vars(g[0])
+        elif s[0] == "lam":
+            for v in s[1]:
+                out.add(v)
+        elif s[0] == "forall-not":
+            pat_vars(s[1])
+            for c in s[3]:
+                if isinstance(c, tuple) and c and c[0] == "iter-elem":
+                    pat_vars(c[1])
+    return out
+
+
+def alpha_normalise_bound(t: Any) -> Any:
+    """Like alpha_normalise, but only for variables bound inside t (free loop variables keep their identity)."""
+    bv = bound_vars(t)
+    order: dict = {}
+    for s in subterms(t):
+        if s[0] == "var" and s in bv and s not in order:
+            order[s] = ("var", f"%b{len(order)}")
+    return mapterm(t, lambda s: order.get(s)) if order else t
+
+
 def show(t: Any, depth: int = 0) -> str:
     """Human-readable rendering of a term (for reports)."""
     if not isinstance(t, tuple):
